@@ -10,7 +10,7 @@ import types
 
 from .. import VERIF
 from ..bytecode_ref import classify, compare, completeness_guard, in_domain, jump_opcodes
-from ..kernel import shard_map
+from ..kernel import default_recursion, shard_map
 from ..progs import skeleton_sources
 from ..runner import Acc
 from ..sweep import exc_fingerprint, rotate
@@ -72,6 +72,35 @@ CORPUS_THOROUGH = CORPUS_QUICK + [
     "xml.dom.minidom", "xml.sax.saxutils", "html.entities", "email.message", "email.header", "email._header_value_parser",
     "lib2to3.pytree", "turtle", "tkinter", "decimal", "numbers", "cgi", "aifc", "sunau", "telnetlib", "poplib", "imaplib", "nntplib",
 ]
+
+
+def long_functions(tier: str = "quick") -> dict:
+    """Functions that are large in one dimension: "all such functions" has no size bound, and a cost per block (a recursion, a
+    quadratic scan) shows only on inputs that are actually large.  Sizes straddle the default recursion limit of 1000."""
+    k = 1 if tier == "quick" else 2
+    out = {}
+    n = 700 * k
+    out[f"seq_if_{n}"] = "def f(a):\n" + "".join(f"    if a > {i}:\n        a += {i}\n" for i in range(n)) + "    return a\n"
+    n = 400 * k
+    out[f"seq_while_{n}"] = "def f(a):\n" + "".join(f"    while a > {i}:\n        a -= 1\n" for i in range(n)) + "    return a\n"
+    n = 600 * k
+    out[f"elif_chain_{n}"] = "def f(a):\n    if a == 0:\n        return 0\n" + "".join(
+        f"    elif a == {i}:\n        return {i}\n" for i in range(1, n)) + "    return -1\n"
+    n = 90
+    s = "def f(a):\n"
+    for i in range(n):
+        s += " " * (i + 1) + f"if a > {i}:\n"
+    s += " " * (n + 1) + "a += 1\n    return a\n"
+    out[f"nest_if_{n}"] = s
+    n = 19
+    s = "def f(a):\n"
+    for i in range(n):
+        s += " " * (i + 1) + (f"for x{i} in a:\n" if i % 2 else f"while a > {i}:\n")
+    s += " " * (n + 1) + "a -= 1\n    return a\n"
+    out[f"nest_loops_{n}"] = s
+    n = 1200 * k
+    out[f"and_chain_{n}"] = "def f(a):\n    return " + " and ".join(f"a > {i}" for i in range(n)) + "\n"
+    return out
 
 
 def code_objects(mod) -> list:
@@ -139,16 +168,24 @@ def check_code(label: str, code, acc: Acc, source=None, fn=None):
         if k != "plain":
             acc.outcomes.add(o)
     try:
-        flow = ByteFlow.from_bytecode(code)
+        # under the interpreter's default recursion limit, as a user would call it (the checker raises the limit for itself)
+        with default_recursion():
+            flow = ByteFlow.from_bytecode(code)
     except Exception as e:  # noqa: BLE001
         et, site = exc_fingerprint(e)
-        report(f"build-raises/{et}", f"ByteFlow.from_bytecode raised {et}: {e} at {site}", site=f"{PYTAG} {site}")
+        report(f"build-raises/{et}", f"ByteFlow.from_bytecode raised {et}: {str(e)[:100]} at {site}", site=f"{PYTAG} {site}")
         return
     compare(code, flow.scfg, report)
     if seen:
         return
     # history: building again after the first result was transformed in place must give the same graph
     first = {n: (type(b).__name__, b.begin, b.end, tuple(b._jump_targets)) for n, b in flow.scfg.graph.items()}
+    if len(first) > 300:
+        # large functions: restructuring in place costs minutes; the rebuild history is covered by the small ones
+        acc.states += len(first)
+        acc.transitions += sum(len(v[3]) for v in first.values())
+        acc.counters["large_functions(no rebuild history)"] += 1
+        return
     try:
         flow.scfg.join_returns()
         flow.scfg.restructure_loop()
@@ -225,14 +262,17 @@ def collect(tier: str, seed: int = 0) -> Acc:
     progs += list(skeleton_sources(maxc, "marked", loop_else_upto=2))
     progs += list(skeleton_sources(maxc, "bare", loop_else_upto=2))
     progs += [(f"SN/{k}", v) for k, v in SNIPPETS.items()]
+    progs += [(f"LONG/{k}", v) for k, v in long_functions(tier).items()]
     progs = rotate(progs, seed)
-    units = [("src", progs[i:i + 300]) for i in range(0, len(progs), 300)]
+    big = [p for p in progs if p[0].startswith("LONG/")]
+    progs = [p for p in progs if not p[0].startswith("LONG/")]
+    units = [("src", [p]) for p in big] + [("src", progs[i:i + 300]) for i in range(0, len(progs), 300)]
     corpus = CORPUS_QUICK if tier == "quick" else sorted(set(CORPUS_THOROUGH))
     units += [("mod", [m]) for m in corpus]
     acc = Acc()
     for r in shard_map(_work, units):
         acc.merge(r)
-    acc.counters[f"programs[{PYTAG}]"] = len(progs)
+    acc.counters[f"programs[{PYTAG}]"] = len(progs) + len(big)
     return acc
 
 
